@@ -3,7 +3,7 @@
    substitution the function performs. *)
 From Coq Require Import String.
 Require Import OV.Base.Bytes OV.Base.PyInt OV.Base.Str OV.Base.Regex OV.Base.C04_Tmpl.
-Require Import OV.Gen.C04_Sanitize OV.Gen.C04_Concrete OV.Model.C04 OV.Proofs.C04_Regex.
+Require Import OV.Gen.C04_Sanitize OV.Gen.C04_Concrete OV.Model.C04 OV.Model.C04_Spec OV.Proofs.C04_Regex.
 Open Scope N_scope.
 
 (* ---------- the compile loop: what the module compiled is the templates at its keys ---------- *)
@@ -34,18 +34,6 @@ Lemma lower_eq s : lower s = py_lower s.
 Proof. unfold lower, py_lower. induction s as [|c s IH]; [reflexivity|]. cbn [flat_map]. rewrite lower1_eq, IH. reflexivity. Qed.
 
 (* ---------- the key list ---------- *)
-Definition spec_keys_35 : list str := [
-  lit "adminpass"; lit "admin_pass"; lit "password"; lit "admin_password"; lit "auth_token"; lit "new_pass";
-  lit "auth_password"; lit "secret_uuid"; lit "secret"; lit "sys_pswd"; lit "token"; lit "configdrive";
-  lit "chappassword"; lit "encrypted_key"; lit "private_key"; lit "fernetkey"; lit "sslkey"; lit "passphrase";
-  lit "cephclusterfsid"; lit "octaviaheartbeatkey"; lit "rabbitcookie"; lit "cephmanilaclientkey";
-  lit "pacemakerremoteauthkey"; lit "designaterndckey"; lit "cephadminkey"; lit "heatauthencryptionkey";
-  lit "cephclientkey"; lit "keystonecredential"; lit "barbicansimplecryptokek"; lit "cephrgwkey";
-  lit "swifthashsuffix"; lit "migrationsshkey"; lit "cephmdskey"; lit "cephmonkey"; lit "chapsecret"].
-
-Definition key_char (c : N) : bool := ((97 <=? c) && (c <=? 122)) || (c =? 95).
-Definition key_ok (k : str) : bool := negb (beq k []) && forallb key_char k.
-
 Lemma spec_keys_count : length spec_keys_35 = 35%nat.
 Proof. reflexivity. Qed.
 
